@@ -32,9 +32,9 @@ Proof. exact (quoted_roundtrip BQ uri_esc_letters true esc_uri_char bq_ne bq_32 
 (* no structural character: the escaped text holds no newline, CR or other control
    character, so neither the row separator nor parser.py's blank-line grid
    splitter can fire inside a cell *)
-Theorem C08_no_structure_str : forall s t x, escape_str s = Ok t -> In x t -> 32 <= x.
+Theorem C08_no_structure_str : forall s t, escape_str s = Ok t -> forall x, In x t -> 32 <= x.
 Proof. exact (all_ge32 DQ str_esc_letters false esc_str_char dq_ne dq_32 every_char_str). Qed.
-Theorem C08_no_structure_uri : forall s t x, escape_uri s = Ok t -> In x t -> 32 <= x.
+Theorem C08_no_structure_uri : forall s t, escape_uri s = Ok t -> forall x, In x t -> 32 <= x.
 Proof. exact (all_ge32 BQ uri_esc_letters true esc_uri_char bq_ne bq_32 every_char_uri). Qed.
 
 (* injective *)
